@@ -26,12 +26,12 @@ type verifLim struct {
 }
 
 type verifOp struct {
-	Op   string `json:"op"`   // take | tick | conc | allow | fault | replace
+	Op   string `json:"op"`   // take | tick | sleep | conc | allow | fault | replace
 	Inst int    `json:"inst"` // allow / conc: which TokenLimiter instance
 	Lim  int    `json:"lim"`
 	Key  int    `json:"key"`
 	Down bool   `json:"down"` // take: every command answers with an error
-	Ms   int64  `json:"ms"`   // tick
+	Ms   int64  `json:"ms"`   // tick / sleep
 	G    int    `json:"g"`    // conc
 	N    int    `json:"n"`    // allow / conc
 	Ctx  int    `json:"ctx"`  // allow: 0 background, 1 cancelled, 2 deadline exceeded
@@ -325,6 +325,14 @@ func verifToken(v *verifServer, c verifCase) any {
 		}
 		switch op.Op {
 		case "tick":
+			clock += op.Ms
+			v.s.SetTime(time.UnixMilli(clock))
+			v.s.FastForward(time.Duration(op.Ms) * time.Millisecond)
+			out = append(out, snap(map[string]any{}))
+		case "sleep":
+			// a clock step that also takes the same REAL time: the monitor goroutine (real 100 ms
+			// ticker) keeps pinging meanwhile, e.g. all through a long outage
+			time.Sleep(time.Duration(op.Ms) * time.Millisecond)
 			clock += op.Ms
 			v.s.SetTime(time.UnixMilli(clock))
 			v.s.FastForward(time.Duration(op.Ms) * time.Millisecond)
